@@ -1,5 +1,5 @@
 (* stdin, one job per line:   n psz relax | e0 .. e(n-1) | j b fsup ; j b fsup ; ...
-   stdout: "ST <forestb> <chainb> <postb> <check_init>" then one line "M c0 c1 ..." (sorted, distinct) per query:
+   stdout: "ST <forestb> <chainb> <postb> <check_init> T <tasks_remain after ParallelInit>" then one line "M c0 c1 ..." (sorted, distinct) per query:
    SchedBusy.mark_busy on ParallelInit's image of the forest *)
 open Busy_model
 let rec z_of_int (i : int) : z =
@@ -19,7 +19,7 @@ let () =
          | [n; psz; relax] ->
              let et = List.map (fun t -> z_of_int (int_of_string t)) (toks et) in
              let s = parallel_init (z_of_int (int_of_string n)) et (z_of_int (int_of_string psz)) (z_of_int (int_of_string relax)) in
-             Printf.printf "ST %d %d %d %d\n" (b2i (forestb s)) (b2i (chainb s)) (b2i (postb s)) (b2i (check_init s));
+             Printf.printf "ST %d %d %d %d T %d\n" (b2i (forestb s)) (b2i (chainb s)) (b2i (postb s)) (b2i (check_init s)) (int_of_z s.tasks);
              List.iter (fun q ->
                match toks q with
                | [j; b; f] ->
